@@ -312,6 +312,9 @@ func constantString(k *ssa.Const) string {
 type md5Use struct {
 	In  []catom
 	Out ssa.Value // the value holding the 16-octet digest ([16]byte call result or the []byte returned by Sum(nil))
+	// Layout is the function in whose terms In is expressed: the function itself, or the unexported helper that lays the
+	// input out when the function hands exactly its own parameters, in order, to that helper
+	Layout *ssa.Function
 }
 
 // rangeLiteralElems: call is `w.Write(part)` executed first thing in every iteration of `for _, part := range lit`, lit a
@@ -390,7 +393,7 @@ func md5Inputs(fn *ssa.Function) (inputs []md5Use, ok bool) {
 	for _, call := range callsTo(fn, "crypto/md5", "Sum") {
 		s, o := concatSeq(call.Call.Args[0], 0)
 		ok = ok && o
-		inputs = append(inputs, md5Use{s, call})
+		inputs = append(inputs, md5Use{s, call, nil})
 	}
 	for _, n := range callsTo(fn, "crypto/md5", "New") {
 		var seq []catom
@@ -441,7 +444,7 @@ func md5Inputs(fn *ssa.Function) (inputs []md5Use, ok bool) {
 			}
 		}
 		if summed {
-			inputs = append(inputs, md5Use{normZeros(seq), out})
+			inputs = append(inputs, md5Use{normZeros(seq), out, nil})
 		}
 	}
 	return inputs, ok
